@@ -11,6 +11,7 @@ From Gods Require Model.RBTree.
 From Gods Require Import Proofs.C05Proofs Proofs.IterLinear.
 From GodsGen Require TreeSetGen.
 From GodsGenProofs Require Import GenIterRun WrapCommon GoCmp.
+From GodsGenProofs Require GoJson.
 Import ListNotations.
 Local Open Scope Z_scope.
 
@@ -28,6 +29,7 @@ Definition I : T.tree_iface := T.mk_tree_iface rbtree
   (fun s => upd_tree s (fun _ _ => Some rbs_empty))                                          (* Clear() *)
   (fun s => on_tree s true (fun _ r => snd r =? 0))                                          (* Empty() *)
   (fun s k => on_tree s (None, false) (fun cmp r => node_res (RB.floor cmp k (fst r))))     (* Floor(key) *)
+  (fun s d => (s, true))   (* FromJSON(data): placeholder (always an error); the wrappers' delegation is proved for ANY interface *)
   (fun s k => on_tree s (0, false) (fun cmp r => opt_pair (rbs_get cmp k r)))               (* Get(key) *)
   (fun s => on_tree s [] (fun _ r => RB.keys (fst r)))                                      (* Keys() *)
   (fun s => on_tree s None (fun _ r => RB.leftmost (fst r)))                                (* Left() *)
@@ -35,6 +37,7 @@ Definition I : T.tree_iface := T.mk_tree_iface rbtree
   (fun s k => upd_tree s (fun cmp r => rbs_remove cmp k r))                                 (* Remove(key) *)
   (fun s => on_tree s None (fun _ r => RB.rightmost (fst r)))                               (* Right() *)
   (fun s => on_tree s 0 (fun _ r => snd r))                                                 (* Size() *)
+  (fun s => (GoJson.nil_bytes, true))   (* ToJSON(): placeholder *)
   (fun s => on_tree s [] (fun _ r => RB.values (fst r)))                                    (* Values() *)
   (fun s => fst s)                                                                          (* the field Comparator *)
   (GoCmp.compare, Some rbs_empty)                                                           (* redblacktree.New() *)
@@ -48,7 +51,7 @@ Module Names.
 Import Coq.Strings.String.
 (* OBLIGATION *)
 Theorem translated_functions :
-  T.translated = ["Add"; "All"; "Any"; "Clear"; "Contains"; "Difference"; "Empty"; "Find"; "Intersection"; "Map"; "New"; "NewWith"; "Remove"; "Select"; "Size"; "Union"; "Values"]%string
+  T.translated = ["Add"; "All"; "Any"; "Clear"; "Contains"; "Difference"; "Empty"; "Find"; "FromJSON"; "Intersection"; "Map"; "MarshalJSON"; "New"; "NewWith"; "Remove"; "Select"; "Size"; "ToJSON"; "Union"; "UnmarshalJSON"; "Values"]%string
   /\ T.skipped = ["Each"; "String"]%string /\ T.not_selected = [].
 Proof. repeat split. Qed.
 Print Assumptions translated_functions.
